@@ -1,0 +1,89 @@
+//go:build verif
+// +build verif
+
+package tengo
+
+// Verification hooks (build tag "verif"). They only observe: a per-VM probe
+// called before every dispatched instruction, read accessors for VM state, and
+// a per-compiler switch that skips dead-code elimination so that the same
+// compiler can emit the unoptimised twin of every function.
+
+const verifOn = true
+
+type verifVM struct {
+	probe func(v *VM)
+}
+
+type verifCompiler struct {
+	noDCE bool
+}
+
+// VerifNewVM, when set, is called at the end of NewVM (also for VMs created
+// inside Compiled.Run/RunContext), so that a harness can attach a probe.
+var VerifNewVM func(v *VM)
+
+func verifNewVM(v *VM) {
+	if VerifNewVM != nil {
+		VerifNewVM(v)
+	}
+}
+
+func verifProbe(v *VM) {
+	if v.verif.probe != nil {
+		v.verif.probe(v)
+	}
+}
+
+// VerifSetProbe installs fn to be called before each instruction is
+// dispatched (v.ip already points at the opcode).
+func (v *VM) VerifSetProbe(fn func(v *VM)) { v.verif.probe = fn }
+
+// VerifState exposes the registers of the VM.
+func (v *VM) VerifState() (fn *CompiledFunction, ip, sp, bp, framesIndex int) {
+	return v.curFrame.fn, v.ip, v.sp, v.curFrame.basePointer, v.framesIndex
+}
+
+// VerifStack returns the live part of the operand stack (not a copy).
+func (v *VM) VerifStack() []Object { return v.stack[:v.sp] }
+
+// VerifGlobals returns the globals slice the VM works on.
+func (v *VM) VerifGlobals() []Object { return v.globals }
+
+// VerifFrame returns the saved ip, base pointer and function of frame i
+// (0 <= i < framesIndex).
+func (v *VM) VerifFrame(i int) (fn *CompiledFunction, ip, bp int) {
+	f := &v.frames[i]
+	return f.fn, f.ip, f.basePointer
+}
+
+// VerifAborting reports the abort flag (plain read; for state keys only).
+func (v *VM) VerifAborting() int64 { return v.aborting }
+
+// VerifAllocs returns the remaining allocation budget counter.
+func (v *VM) VerifAllocs() int64 { return v.allocs }
+
+// VerifErr returns the pending run-time error.
+func (v *VM) VerifErr() error { return v.err }
+
+// VerifSetNoDCE makes this compiler (and the module compilers forked from
+// it) skip dead-code elimination: functions keep every emitted instruction
+// and only get a trailing return appended.
+func (c *Compiler) VerifSetNoDCE(on bool) { c.verif.noDCE = on }
+
+func (c *Compiler) verifNoDCE() bool {
+	for p := c; p != nil; p = p.parent {
+		if p.verif.noDCE {
+			return true
+		}
+	}
+	return false
+}
+
+// VerifBytecode exposes the bytecode of a compiled script.
+func (c *Compiled) VerifBytecode() *Bytecode { return c.bytecode }
+
+// VerifGlobals exposes the globals slice of a compiled script.
+func (c *Compiled) VerifGlobals() []Object { return c.globals }
+
+// VerifGlobalIndexes exposes the name -> index table of a compiled script.
+func (c *Compiled) VerifGlobalIndexes() map[string]int { return c.globalIndexes }
